@@ -711,8 +711,9 @@ class UFs:
                         return R(0)
                     if e.v == 0:
                         return R(1)
-                self.c.definedness("0.0 ** non-positive exponent", e.z3() > 0)
-                return R(0)
+                # 0.0 ** e: 0 for e > 0, 1 for e == 0, ZeroDivisionError for e < 0
+                self.c.definedness("0.0 ** negative exponent", e.z3() >= 0)
+                return R(z3.If(e.z3() > 0, _realval(Fraction(0)), _realval(Fraction(1))))
         if b.isinf:
             raise Unsupported("inf ** x")
         be, ee = b.z3(), e.z3()
@@ -765,10 +766,24 @@ _CONCRETE_FUNS = {}
 
 
 class Obligation:
-    __slots__ = ("kind", "pc", "cond", "note")
+    __slots__ = ("kind", "pc", "cond", "site")
 
-    def __init__(self, kind, pc, cond, note=""):
-        self.kind, self.pc, self.cond, self.note = kind, pc, cond, note
+    def __init__(self, kind, pc, cond, site=None):
+        self.kind, self.pc, self.cond, self.site = kind, pc, cond, site
+
+
+def _pydrex_site():
+    """(function name, source line text) of the innermost frame that is PyDRex code."""
+    import linecache
+    import sys as _sys
+
+    f = _sys._getframe(2)
+    while f is not None:
+        fn = f.f_code.co_filename
+        if "/pydrex/" in fn:
+            return (f.f_code.co_name, linecache.getline(fn, f.f_lineno).strip(), fn.rsplit("/", 1)[-1])
+        f = f.f_back
+    return None
 
 
 class PathCtx:
@@ -800,7 +815,7 @@ class PathCtx:
         """Record 'pc => cond' as an obligation and continue under cond."""
         if z3.is_true(cond):
             return
-        self.obligations.append(Obligation(kind, list(self.pc), cond))
+        self.obligations.append(Obligation(kind, list(self.pc), cond, _pydrex_site()))
         if z3.is_false(cond):
             return
         self.assume(cond)
